@@ -542,6 +542,32 @@ func implies(p Pred, w Want) bool {
 
 // holds reports whether any guard establishes the want; returns the witness.
 func holds(gs []Guard, w Want) (string, bool) {
+	// an equality written as two bounds: T ≥ k and T ≤ k (e.g. `n < K || n > K` rejected)
+	if w.Kind == "eq" {
+		var lo, hi *int64
+		for _, g := range gs {
+			p := predOf(g)
+			if p.Kind != "ge" {
+				continue
+			}
+			if s, ok := matchTerms(p.L, w.Terms, true); ok {
+				if s == 1 { // T + Kp ≥ 0  →  T ≥ −Kp
+					v := -p.L.K
+					if lo == nil || v > *lo {
+						lo = &v
+					}
+				} else { // −T + Kp ≥ 0  →  T ≤ Kp
+					v := p.L.K
+					if hi == nil || v < *hi {
+						hi = &v
+					}
+				}
+			}
+		}
+		if lo != nil && hi != nil && *lo == *hi && *lo == -w.K {
+			return fmt.Sprintf("both bounds meet at %d", *lo), true
+		}
+	}
 	for _, g := range gs {
 		p := predOf(g)
 		if implies(p, w) {
@@ -669,4 +695,41 @@ func inlineBoolHelper(call *ssa.Call, pol bool) (Pred, bool) {
 		p.A = rw(p.A)
 	}
 	return p, true
+}
+
+
+// impliedLin: some guard establishes target ≥ 0 (same atoms and coefficients, constant no larger).
+func impliedLin(gs []Guard, target Lin) (string, bool) {
+	for _, g := range gs {
+		p := predOf(g)
+		if p.Kind == "eq" {
+			// T + K == 0 gives both T + K ≥ 0 and −T − K ≥ 0
+			for _, s := range []int64{1, -1} {
+				q := p.L.scale(s)
+				if sameTerms(q, target) && q.K <= target.K {
+					return p.String(), true
+				}
+			}
+			continue
+		}
+		if p.Kind != "ge" {
+			continue
+		}
+		if sameTerms(p.L, target) && p.L.K <= target.K {
+			return p.String(), true
+		}
+	}
+	return "", false
+}
+
+func sameTerms(a, b Lin) bool {
+	if len(a.T) != len(b.T) {
+		return false
+	}
+	for k, v := range a.T {
+		if b.T[k] != v {
+			return false
+		}
+	}
+	return true
 }
